@@ -1,6 +1,6 @@
 import logging
 from functools import wraps
-from threading import Lock
+from threading import RLock
 from contextlib import contextmanager
 
 from .logwrap import LogWrapper
@@ -24,7 +24,10 @@ def executor_loop(fn):
 
 class ShutdownHelper(object):
     def __init__(self):
-        self._lock = Lock()
+        # Re-entrant: code running inside submit() - the callable itself for a
+        # synchronous executor, or a map/done callback invoked inline - may
+        # submit to the same executor again from the same thread.
+        self._lock = RLock()
         self.is_shutdown = False
 
     @contextmanager
